@@ -753,6 +753,8 @@ class Reader:
                 c = crc32c(c, raw[:124] + b"\0\0" + raw[126:])
                 ok = (c & 0xFFFF) == csum_lo
             I["seed"] = seed_i
+            if not ok and not any(raw):
+                ok = True       # a never-initialised (all zero) inode carries no checksum
         I["csum_ok"] = ok
         return I
 
@@ -1730,7 +1732,7 @@ class Reader:
 
     # ---- journal, orphans, quota, MMP, backups ----------------------------------------------
     def journal_summary(self):
-        J = {"present": self.journal_feat, "err": []}
+        J = {"present": self.journal_feat, "err": [], "csum_ok": True, "external": False, "dirty": False}
         errs = J["err"]
         if not self.journal_feat:
             if self.journal_inum:
@@ -1826,7 +1828,8 @@ class Reader:
             J.setdefault("info", []).append("journal_errno_%d" % errno_)
 
     def orphan_summary(self):
-        O = {"last_orphan": s32(self.last_orphan), "chain": [], "err": [], "file": None}
+        O = {"last_orphan": s32(self.last_orphan), "chain": [], "err": [],
+             "file": {"ino": 0, "blocks": 0, "entries": [], "err": [], "csum_err": []}}
         errs = O["err"]
         # classic list: s_last_orphan -> i_dtime chain
         seen = set()
@@ -1847,7 +1850,7 @@ class Reader:
             cur = I["dtime"]
         if self.orphan_file_feat:
             ino = self.orphan_file_inum
-            F = {"ino": ino, "blocks": 0, "entries": [], "err": []}
+            F = {"ino": ino, "blocks": 0, "entries": [], "err": [], "csum_err": []}
             O["file"] = F
             I = self.get_inode(ino) if ino else None
             if I is None:
@@ -1879,7 +1882,7 @@ class Reader:
                         c = crc32c(I["seed"], struct.pack("<Q", p))
                         c = crc32c(c, buf[:bs - 8])
                         if c != u32(buf, bs - 4)[0]:
-                            F["err"].append("csum:orphan_block@l%d" % l)
+                            F["csum_err"].append("csum:orphan_block@l%d" % l)
                     for (x,) in struct.iter_unpack("<I", buf[:bs - 8]):
                         if x:
                             F["entries"].append(s32(x))
@@ -1914,8 +1917,8 @@ class Reader:
 
     def mmp_summary(self, fx):
         if not self.mmp_feat:
-            return None
-        M = {"blk": clip(self.mmp_block), "err": []}
+            return {"present": False, "err": [], "magic_ok": True, "csum_ok": True}
+        M = {"present": True, "blk": clip(self.mmp_block), "err": [], "magic_ok": True, "csum_ok": True}
         b = self.mmp_block
         if not self.valid_blk(b) or b == 0:
             M["err"].append("mmp:block_out_of_range")
@@ -1993,3 +1996,365 @@ class Reader:
             if rec is not None:
                 out.append(rec)
         return out
+
+    # ---- assembly ---------------------------------------------------------------------------
+    def read_super_extra(self):
+        sb = self.sbraw
+        self.creator_os = u32(sb, 0x48)[0]
+        self.free_blocks = u32(sb, 0x0C)[0] | ((u32(sb, 0x158)[0] << 32) if self.has64 else 0)
+        self.free_inodes = u32(sb, 0x10)[0]
+        self.prealloc_dir_blocks = sb[0xCD]
+        self.journal_uuid = bytes(sb[0xD0:0xE0])
+        self.journal_inum = u32(sb, 0xE0)[0]
+        self.journal_dev_num = u32(sb, 0xE4)[0]
+        self.last_orphan = u32(sb, 0xE8)[0]
+        self.hash_seed = struct.unpack_from("<4I", sb, 0xEC)
+        self.def_hash_version = sb[0xFC]
+        self.jnl_backup_type = sb[0xFD]
+        self.s_flags = u32(sb, 0x160)[0]
+        self.hash_unsigned = bool(self.s_flags & 2)
+        self.mmp_block = struct.unpack_from("<Q", sb, 0x168)[0]
+        self.usr_quota_inum = u32(sb, 0x240)[0]
+        self.grp_quota_inum = u32(sb, 0x244)[0]
+        self.prj_quota_inum = u32(sb, 0x26C)[0]
+        self.lpf_ino = u32(sb, 0x268)[0]
+        self.orphan_file_inum = u32(sb, 0x280)[0]
+        self.needs_recovery = bool(self.f_incompat & 0x4)
+        self.error_count = u32(sb, 0x194)[0]
+        self.min_extra = u16(sb, 0x15C)[0]
+        self.want_extra = u16(sb, 0x15E)[0]
+
+    def project(self):
+        try:
+            self.read_super()
+            self.read_super_extra()
+        except Fatal as f:
+            return {"fatal": str(f)}
+        except Exception as ex:
+            return {"fatal": "superblock:%s:%s" % (type(ex).__name__, ex)}
+        self.inodes_by_no = {}
+        self.xblocks = {}
+        self.dir_info = []
+        self.unsupported = set()
+        P = {}
+        try:
+            self._project(P)
+        except Exception as ex:
+            import traceback
+            P["reader_err"] = ["exception:%s:%s" % (type(ex).__name__, ex), traceback.format_exc()[-600:]]
+        return P
+
+    def _project(self, P):
+        bs = self.bs
+        feats_c, feats_i, feats_r = names(self.f_compat, COMPAT), names(self.f_incompat, INCOMPAT), names(self.f_ro, RO_COMPAT)
+        flex = (1 << self.log_flex) if (self.flex_bg and self.log_flex < 31) else 1
+        P["geo"] = {"bs": bs, "cr": self.cr, "blocks": self.blocks, "first": self.first, "bpg": self.bpg,
+                    "cpg": self.cpg, "ipg": self.ipg, "inodes": self.inodes, "isize": self.isize,
+                    "dsize": self.dsize, "gdc": self.gdc, "descblks": self.descblks, "rsvgdt": self.rsvgdt,
+                    "itb": self.itb, "flex": min(flex, M31 - 1), "first_meta_bg": clip(self.first_meta_bg),
+                    "compat": feats_c, "incompat": feats_i, "ro_compat": feats_r,
+                    "features": feats_c + feats_i + feats_r, "first_ino": self.first_ino, "rev": clip(self.rev),
+                    "csum": self.csum_kind, "backup_bgs": [clip(x) for x in self.backup_bgs],
+                    "creator_os": clip(self.creator_os), "bbitmap_unit": "cluster" if self.cr > 1 else "block-first",
+                    "image_blocks": self.size // bs}
+        if self.size < self.blocks * bs:
+            self.e("sb_err", "image_shorter_than_filesystem")
+        unknown = [n for n in P["geo"]["features"] if n.startswith("bit")]
+        for n in ("compression", "journal_dev", "dirdata", "replica", "snapshot_bitmap", "imagic_inodes"):
+            if n in P["geo"]["features"]:
+                unknown.append(n)
+        if unknown:
+            self.e("sb_err", "unsupported_features:" + ",".join(unknown))
+        self.read_gds()
+        fx = self.layout()
+        for g, d in enumerate(self.gd):
+            lo, hi = (self.first, self.blocks - 1) if self.flex_bg else (self.group_first(g), self.group_last(g))
+            for cls, key, n in (("bb", "bb", 1), ("ib", "ib", 1), ("it", "it", self.itb)):
+                b = d[key]
+                if b < lo or b + n - 1 > hi or b == 0:
+                    self.e("gd_err", "g%d:%s_location" % (g, key))
+                    if b < self.first or b + n - 1 >= self.blocks:
+                        continue
+                fx[cls].append([b, b + n - 1])
+        mmp = self.mmp_summary(fx)
+        have_csum_early = self.csum_kind != "none"
+        for k in fx:
+            fx[k].sort()
+        bbitmap, ibitmap = self.read_bitmaps(fx)
+        P["fixed"] = fx
+        P["fixed_list"] = sorted([a, b, cls] for cls in fx for a, b in fx[cls])
+        P["geo"]["ncl"] = (self.blocks - self.first + self.cr - 1) // self.cr
+        P["geo"]["csum_feature"] = have_csum_early
+        P["bbitmap"], P["ibitmap"] = bbitmap, ibitmap
+        have_csum = self.csum_kind != "none"
+        # ---- candidate inodes
+        ibits = set()
+        for a, b in ibitmap:
+            ibits.update(range(a, b + 1))
+        cand = set(ibits)
+        cand.update(range(1, self.first_ino))
+        isz = self.isize
+        for g, d in enumerate(self.gd):
+            it = d["it"]
+            if not self.valid_blk(it) or it + self.itb > self.blocks:
+                continue
+            n = self.ipg
+            if have_csum:
+                if d["flagbits"] & 1:
+                    continue
+                n = max(0, n - min(d["unused"], n))
+            tb = self.img[it * bs:it * bs + n * isz]
+            lo, hi = tb[26::isz], tb[27::isz]
+            base = g * self.ipg + 1
+            for k in range(min(len(lo), len(hi))):
+                if lo[k] or hi[k]:
+                    cand.add(base + k)
+        for ino in sorted(cand):
+            I = self.get_inode(ino)
+            if I is not None:
+                self.finish_inode(I)
+            else:
+                self.e("inode_err", "ino%d:unreadable" % ino)
+        # ---- directories (every in-use directory inode)
+        dirs = []
+        done = set()
+        queue = [I for I in self.inodes_by_no.values() if I["type"] == "dir" and (I["links"] or I["ino"] == 2)]
+        queue.sort(key=lambda I: I["ino"])
+        while queue:
+            nxt = []
+            for I in queue:
+                if I["ino"] in done:
+                    continue
+                done.add(I["ino"])
+                self.finish_inode(I)
+                D = self.read_dir(I)
+                dirs.append(D)
+                for e_ in D["ents"]:
+                    t = e_[1]
+                    if 1 <= t <= self.inodes and t not in self.inodes_by_no:
+                        J = self.get_inode(t)
+                        if J is not None:
+                            self.finish_inode(J)
+            queue = nxt
+        dirs.sort(key=lambda D: D["dir"])
+        # ---- output: inodes
+        inodes_sorted = sorted(self.inodes_by_no.values(), key=lambda I: I["ino"])
+        ix_of = {I["ino"]: k + 1 for k, I in enumerate(inodes_sorted)}
+        first_ino = self.first_ino
+
+        def in_use(I):
+            return I["links"] > 0 or I["ino"] < first_ino
+        claims = []
+        xb_used = set()
+        out_inodes = []
+        for I in inodes_sorted:
+            self.finish_inode(I)
+            data = sorted([r[2], r[2] + r[1] - 1] for r in I["runs"])
+            index = [[b, b] for b in sorted(I["index"])]
+            ind = [[b, b] for b in sorted(I["ind"])]
+            own = {"data": data, "index": index, "ind": ind, "xattr": I["xattr_blk"], "ea_inodes": I["ea_inodes"]}
+            rec = {"ino": I["ino"], "type": I["type"], "mode": I["mode_raw"] & 0o7777, "uid": s32(I["uid"]),
+                   "gid": s32(I["gid"]), "links": I["links"], "size": split64(I["size"]),
+                   "flags": names(I["flagbits"], IFLAGS), "iblocks": clip(I["iblocks_raw"]),
+                   "iblocks_expect": clip(I.get("iblocks_expect", 0)), "gen": s32(I["gen"]),
+                   "dtime": s32(I["dtime"]), "mtime": split64(I["mtime"]), "atime": split64(I["atime"]),
+                   "ctime": split64(I["ctime"]), "file_acl": clip(I["facl"]), "extra_isize": I["extra"],
+                   "csum_ok": I["csum_ok"], "map": I["map"], "own": own,
+                   "runs": [list(r) for r in I["runs"]], "shape_ok": not I["shape_err"],
+                   "shape_err": [x for x in I["shape_err"] if not x.startswith(("range:", "csum:"))],
+                   "range_err": [x for x in I["shape_err"] if x.startswith("range:")],
+                   "csum_err": [x for x in I["shape_err"] if x.startswith("csum:")],
+                   "xattrs": I["xattrs"], "xplace": I["xplace"], "inline": I["map"] == "inline",
+                   "bit": I["ino"] in ibits, "special": I["ino"] < first_ino,
+                   "ea_inode": bool(I["flagbits"] & 0x200000),
+                   "ea_refs": len(I.get("ea_referrers", ())), "rlo": 0, "rhi": -1}
+            if rec["ea_inode"]:
+                rec["ea_refcount"] = split64(((I["ctime"] & MASK) << 32) | u32(I["raw"], 36)[0])
+            if "target" in I:
+                rec["target"] = I["target"]
+            if "rdev" in I:
+                rec["rdev"] = I["rdev"]
+            if "info" in I:
+                rec["info"] = I["info"]
+            if I["type"] in ("reg", "lnk") and I["ino"] >= first_ino and in_use(I):
+                try:
+                    rec["digest"] = self.digest(I)
+                except Exception as ex:
+                    rec["digest"] = "error:%s" % type(ex).__name__
+            else:
+                rec["digest"] = ""
+            out_inodes.append(rec)
+            if in_use(I):
+                for cls in ("data", "index", "ind"):
+                    for a, b in own[cls]:
+                        claims.append([a, b, I["ino"], cls])
+                if I["xattr_blk"]:
+                    xb_used.add(I["xattr_blk"])
+        for b in sorted(xb_used):
+            claims.append([b, b, 0, "xattr"])
+        claims.sort()
+        P["inodes"] = out_inodes
+        P["claims"] = claims
+        # ---- output: directories + reference certificate
+        out_dirs = []
+        refs = []
+        for dp, D in enumerate(dirs):
+            ents = []
+            for ep, (name, t, ft, where, pos) in enumerate(D["ents"]):
+                dot = 1 if name == b"." else (2 if name == b".." else 0)
+                ents.append({"name": jname(name), "ino": clip(t), "ft": ft, "ix": ix_of.get(t, 0), "dot": dot})
+                refs.append([clip(t), dp + 1, ep + 1])
+            out_dirs.append({"dir": D["dir"], "ix": ix_of[D["dir"]], "kind": D["kind"], "levels": D["levels"],
+                             "ok": not D["err"], "err": [x for x in D["err"] if not x.startswith("csum:")],
+                             "csum_err": [x for x in D["err"] if x.startswith("csum:")],
+                             "dot": clip(D["dot"]), "dotdot": clip(D["dotdot"]),
+                             "ents": ents, "depth": -1})
+        refs.sort()
+        P["dirs"] = out_dirs
+        P["refs"] = refs
+        k = 0
+        n = len(refs)
+        while k < n:
+            j = k
+            t = refs[k][0]
+            while j + 1 < n and refs[j + 1][0] == t:
+                j += 1
+            ix = ix_of.get(t, 0)
+            if ix:
+                out_inodes[ix - 1]["rlo"] = k + 1
+                out_inodes[ix - 1]["rhi"] = j + 1
+            k = j + 1
+        # ---- depth certificate (distance from the root through non-dot entries)
+        dpos = {D["dir"]: k for k, D in enumerate(out_dirs)}
+        if 2 in dpos:
+            out_dirs[dpos[2]]["depth"] = 0
+            frontier = [2]
+            while frontier:
+                nf = []
+                for d in frontier:
+                    D = out_dirs[dpos[d]]
+                    for en in D["ents"]:
+                        if en["dot"]:
+                            continue
+                        c = dpos.get(en["ino"])
+                        if c is not None and out_dirs[c]["depth"] < 0:
+                            out_dirs[c]["depth"] = D["depth"] + 1
+                            nf.append(en["ino"])
+                frontier = nf
+        # ---- xattr blocks
+        xbs = []
+        for b in sorted(self.xblocks):
+            x = self.xblocks[b]
+            xbs.append({"blk": b, "refcount": x["refcount"], "referrers": sorted(x.get("referrers", [])),
+                        "csum_ok": x["csum_ok"], "sorted": x["sorted"], "hash_ok": x["hash_ok"],
+                        "bhash_ok": x["bhash_ok"], "ok": not x["err"], "err": x["err"],
+                        "names": [e_["name"] for e_ in x["entries"]]})
+        P["xblocks"] = xbs
+        # ---- the rest
+        P["journal"] = self.journal_summary()
+        P["orphans"] = self.orphan_summary()
+        P["quota"] = self.quota_summary()
+        P["mmp"] = mmp
+        P["backups"] = self.backups_summary()
+        sb = self.sbraw
+        P["sb"] = {"state": self.state, "valid": bool(self.state & 1), "error_fs": bool(self.state & 2),
+                   "orphan_fs": bool(self.state & 4), "free_blocks": clip(self.free_blocks),
+                   "free_inodes": clip(self.free_inodes), "needs_recovery": self.needs_recovery,
+                   "last_orphan": s32(self.last_orphan), "orphan_file_ino": clip(self.orphan_file_inum),
+                   "journal_inum": clip(self.journal_inum), "usr_quota": clip(self.usr_quota_inum),
+                   "grp_quota": clip(self.grp_quota_inum), "prj_quota": clip(self.prj_quota_inum),
+                   "uuid": self.uuid.hex(), "seed": "%08x" % self.seed, "csum_ok": self.sb_csum_ok,
+                   "mmp_block": clip(self.mmp_block), "lpf_ino": clip(self.lpf_ino),
+                   "hash_version": self.def_hash_version, "hash_unsigned": self.hash_unsigned,
+                   "error_count": clip(self.error_count), "min_extra_isize": self.min_extra,
+                   "want_extra_isize": self.want_extra, "orphan_present": self.orphan_present,
+                   "prealloc_dir_blocks": self.prealloc_dir_blocks}
+        P["gd"] = [{"g": d["g"], "bb": clip(d["bb"]), "ib": clip(d["ib"]), "it": clip(d["it"]),
+                    "free_b": d["free_b"], "free_i": d["free_i"], "dirs": d["dirs"],
+                    "flags": names(d["flagbits"], BGFLAGS, 16), "unused": d["unused"], "csum_ok": d["csum_ok"],
+                    "bbcsum_ok": d["bbcsum_ok"], "ibcsum_ok": d["ibcsum_ok"], "bb_pad_ok": d["bb_pad_ok"]}
+                   for d in self.gd]
+        for k in ("sb_err", "gd_err", "inode_err"):
+            P[k] = self.err.get(k, [])
+        P["dir_info"] = self.dir_info
+        P["unsupported"] = sorted(self.unsupported)
+        P["short_reads"] = self.short_reads
+        P["tree"] = self.tree(out_inodes, out_dirs, ix_of, dpos)
+        P["loc"] = self.loc
+
+    def tree(self, out_inodes, out_dirs, ix_of, dpos):
+        out = []
+        if 2 not in dpos:
+            return out
+        seen_dirs = set()
+        stack = [("/", 2)]
+        limit = 200000
+        while stack and len(out) < limit:
+            path, ino = stack.pop()
+            ix = ix_of.get(ino)
+            if not ix:
+                out.append({"path": path, "ino": ino, "type": "missing"})
+                continue
+            r = out_inodes[ix - 1]
+            t = {"path": path, "ino": ino, "type": r["type"], "size": r["size"], "mode": r["mode"], "uid": r["uid"],
+                 "gid": r["gid"], "nlink": r["links"], "mtime": r["mtime"], "xattrs": r["xattrs"]}
+            if r["type"] == "reg":
+                t["digest"] = r["digest"]
+            if r["type"] == "lnk":
+                t["target"] = r.get("target", "")
+            if "rdev" in r:
+                t["rdev"] = r["rdev"]
+            if r["type"] == "dir":
+                t["size"] = [0, 0]      # representation detail (number of directory blocks)
+                if ino in seen_dirs:
+                    t["type"] = "dir-again"
+                    out.append(t)
+                    continue
+                seen_dirs.add(ino)
+                D = out_dirs[dpos[ino]] if ino in dpos else None
+                if D is not None:
+                    for en in sorted((e_ for e_ in D["ents"] if not e_["dot"]), key=lambda e_: e_["name"],
+                                     reverse=True):
+                        stack.append((path.rstrip("/") + "/" + en["name"], en["ino"]))
+            out.append(t)
+        out.sort(key=lambda t: t["path"])
+        return out
+
+
+def project(path, offset=0):
+    try:
+        r = Reader(path, offset)
+    except Exception as ex:
+        return {"fatal": "open:%s:%s" % (type(ex).__name__, ex)}
+    return r.project()
+
+
+def main(argv):
+    import argparse
+    ap = argparse.ArgumentParser(description="independent ext2/3/4 reader -> Ext4Abs projection (JSON)")
+    ap.add_argument("image")
+    ap.add_argument("-o", "--out")
+    ap.add_argument("--offset", type=int, default=0)
+    ap.add_argument("--no-loc", action="store_true")
+    ap.add_argument("--summary", action="store_true", help="print error lists only")
+    a = ap.parse_args(argv)
+    P = project(a.image, a.offset)
+    if a.no_loc:
+        P.pop("loc", None)
+    if a.summary:
+        S = {k: v for k, v in P.items() if k.endswith("_err") or k in ("fatal", "unsupported", "dir_info")}
+        S["inode_shape"] = {i["ino"]: i["shape_err"] for i in P.get("inodes", []) if i["shape_err"]}
+        S["inode_csum"] = [i["ino"] for i in P.get("inodes", []) if not i["csum_ok"]]
+        S["dir_err"] = {d["dir"]: d["err"] for d in P.get("dirs", []) if d["err"]}
+        S["xblock_err"] = {x["blk"]: x["err"] for x in P.get("xblocks", []) if x["err"]}
+        P = S
+    txt = json.dumps(P, separators=(",", ":"))
+    if a.out:
+        with open(a.out, "w") as f:
+            f.write(txt)
+    else:
+        sys.stdout.write(txt + "\n")
+
+
+if __name__ == "__main__":
+    main(sys.argv[1:])
